@@ -34,12 +34,34 @@ func (sp *Spec) DeclFiles() []string {
 
 func mkName(t *Type) string {
 	switch t.Kind {
+	case KExt:
+		return "mk_" + strings.ReplaceAll(t.Name, ".", "_")
 	case KPlainStr:
 		return "mk_pstr"
 	case KPlainInt:
 		return "mk_pint"
 	}
 	return "mk_" + t.Name
+}
+
+// extImports renders the aliased imports (and a use of each) of the foreign types the program mentions.
+func (sp *Spec) extImports() (imports, uses string) {
+	seen := map[string]bool{}
+	for i := range sp.Types {
+		t := &sp.Types[i]
+		if t.Kind != KExt {
+			continue
+		}
+		alias := strings.SplitN(t.Name, ".", 2)[0]
+		for _, e := range ExtTypes {
+			if e.Alias == alias && !seen[alias] {
+				seen[alias] = true
+				imports += fmt.Sprintf("\t%s %q\n", e.Alias, e.Path)
+				uses += fmt.Sprintf("var _ *%s.%s\n", e.Alias, e.Type)
+			}
+		}
+	}
+	return
 }
 
 func (sp *Spec) usesCtx() bool {
@@ -53,10 +75,13 @@ func (sp *Spec) usesCtx() bool {
 
 func (sp *Spec) renderTypes() string {
 	var b strings.Builder
-	fmt.Fprintf(&b, "package %s\n\nimport (\n\t\"context\"\n\n\tsimrt %q\n)\n\nvar _ context.Context\nvar _ = simrt.Intern\n\n", sp.Pkg, SimrtImport)
+	extImp, extUse := sp.extImports()
+	fmt.Fprintf(&b, "package %s\n\nimport (\n\t\"context\"\n%s\n\tsimrt %q\n)\n\nvar _ context.Context\nvar _ = simrt.Intern\n%s\n", sp.Pkg, extImp, SimrtImport, extUse)
 	for i := range sp.Types {
 		t := &sp.Types[i]
 		switch t.Kind {
+		case KExt:
+			fmt.Fprintf(&b, "func %s(t string) *%s { return new(%s) }\n\n", mkName(t), t.Name, t.Name)
 		case KPtr:
 			fmt.Fprintf(&b, "type %s struct{ Term string }\n\n", t.Name)
 			fmt.Fprintf(&b, "func (t *%s) TermOf() string {\n\tif t == nil {\n\t\treturn \"<nil>\"\n\t}\n\treturn t.Term\n}\n", t.Name)
@@ -120,6 +145,8 @@ func (sp *Spec) renderTypes() string {
 			fmt.Fprintf(&b, "\tcase %s:\n\t\treturn orZero(string(x))\n", t.Name)
 		case KInt:
 			fmt.Fprintf(&b, "\tcase %s:\n\t\treturn simrt.TermOfInt(int(x))\n", t.Name)
+		case KExt:
+			fmt.Fprintf(&b, "\tcase *%s:\n\t\t_ = x\n\t\treturn \"EXT\"\n", t.Name)
 		}
 	}
 	b.WriteString("\tcase string:\n\t\treturn orZero(x)\n\tcase int:\n\t\treturn simrt.TermOfInt(x)\n\tcase context.Context:\n\t\treturn \"CTX\"\n\t}\n\treturn \"<unknown>\"\n}\n\n")
@@ -129,7 +156,8 @@ func (sp *Spec) renderTypes() string {
 
 func (sp *Spec) renderProviders() string {
 	var b strings.Builder
-	fmt.Fprintf(&b, "package %s\n\nimport (\n\t\"context\"\n\n\tsimrt %q\n)\n\nvar _ context.Context\n\n", sp.Pkg, SimrtImport)
+	extImp, extUse := sp.extImports()
+	fmt.Fprintf(&b, "package %s\n\nimport (\n\t\"context\"\n%s\n\tsimrt %q\n)\n\nvar _ context.Context\n%s\n", sp.Pkg, extImp, SimrtImport, extUse)
 	for i := range sp.Providers {
 		p := &sp.Providers[i]
 		if p.Form == "struct" || p.Form == "value" {
@@ -232,7 +260,8 @@ func (sp *Spec) renderItems(items []Item, indent string, sets *[]string) string 
 
 func (sp *Spec) renderDecl(file int) string {
 	var b strings.Builder
-	fmt.Fprintf(&b, "package %s\n\nimport (\n\t\"context\"\n\n\t%q\n)\n\nvar _ context.Context\n\n", sp.Pkg, KessokuImport)
+	extImp, extUse := sp.extImports()
+	fmt.Fprintf(&b, "package %s\n\nimport (\n\t\"context\"\n%s\n\t%q\n)\n\nvar _ context.Context\n%s\n", sp.Pkg, extImp, KessokuImport, extUse)
 	for i := range sp.Injectors {
 		inj := &sp.Injectors[i]
 		if inj.File != file {
